@@ -63,8 +63,10 @@ func vShapeRel(capacity, pad int, withFree bool, emptied int) *vWorld {
 	if withFree {
 		p2 := W.create([]int{cA}, Entity{}, Entity{})
 		c := W.create([]int{cR1, cA}, W.e[p2].h, Entity{})
+		cb := W.create([]int{cR1, cB}, W.e[p2].h, Entity{}) // archetype {R1,B}: its only table will be a free one
 		W.removeEntity(c)
-		W.removeEntity(p2) // frees the (R1->p2) table; p2's id is recycled next
+		W.removeEntity(cb)
+		W.removeEntity(p2) // frees the (R1->p2) tables; p2's id is recycled next
 		// the recycled id becomes a target again: the dead handle p2 and the live p3 share an id
 		p3 := W.create([]int{cA}, Entity{}, Entity{})
 		W.create([]int{cR1, cA}, W.e[p3].h, Entity{})
@@ -169,6 +171,11 @@ func (W *vWorld) opNew(tag string) {
 		t1 = W.pickTarget("new.t1")
 	}
 	if W.n >= vNE {
+		return
+	}
+	if (hasR1 || hasR2) && !vLocked && vPick("new.omit-target", 2) == 1 {
+		// a relation component without its target: rejected whatever tables exist
+		W.expectReject(tag+"/new-without-target", func() { W.u.NewEntityRel(W.ids(cs)) })
 		return
 	}
 	if vLocked || vHasDup(cs) || !W.targetOK(t0) || !W.targetOK(t1) {
